@@ -137,7 +137,7 @@ PROPS = {
         assumptions=[],
     ),
     "C14": dict(
-        modules=["Gopki.Props.C14"], theorems=['C14.C14_key_kept', 'C14.C14_csr', 'C14.C14_fresh_only_when_nothing_stored', 'C14.C14_generate_returns_stored_key'], ops=['hist', 'pki'],
+        modules=["Gopki.Props.C14"], theorems=['C14.C14_file_layer_keeps_key_and_request', 'C14.C14_key_kept', 'C14.C14_csr', 'C14.C14_fresh_only_when_nothing_stored', 'C14.C14_generate_returns_stored_key'], ops=['hist', 'pki'],
         rule="hist: forests of 1-4 entities, a first default run, then 1-5 (thorough 1-9) steps drawn from {edit config, delete/truncate/strip-block/replace artifact, touch config, run with one of 12 flag sets, run with an injected write fault (error / torn prefix / death after write)}, "
              "then a default run (convergence evaluated) and another default run (must be a no-op); every run is replayed on the model from the directory observed before it; non-trivial = at least three runs",
         modelled=['modelled, not verified: encoding/asn1 marshalling (Gopki.Base.Asn1 / Gopki.Model.Generator), encoding/pem, encoding/json (Gopki.Model.Hash), io/fs walk order, MapFS, YAML/JSON-schema front end (identity)', 'signature mathematics and key generation: oracle inputs; verification done by the harness with crypto/ecdsa, crypto/rsa and the keybase brainpool curves'],
